@@ -47,8 +47,9 @@ def plans(ctx):
                 jobs.append(((0, 3), (2,), (d,), (2,), (0, 1), ()))
         else:
             for f in (1, 2, 3):
-                vals = (0, 2) if nd == 4 and f != 3 else (0, 1, 3)
-                if nd == 4 and f != 3:
+                cells = nd * (2 if f == 3 else 3)
+                vals = (0, 1, 3) if cells <= 6 else (0, 2)          # 729 spectra at most with three values, 4096 with two
+                if cells >= 12:
                     for ft in ((0, 1), (2, 4)):
                         jobs.append((vals, (f,), (d,), ft, dt, rots if ft == (0, 1) else ()))
                 else:
